@@ -559,7 +559,8 @@ static int sweep_c14(int argc, char **argv) {
                     viol(key, "state=%s input=%d elapsed=%lds (timeout %lds): new state %d, expected %s%d", sn[s], in, el[k], t, got,
                          timed_out ? "idle or reopened, e.g. " : "", timed_out ? Q : exp);
                 } else if (got != s) nontriv++;
-                if (a->last_ts != base + (uint64_t)el[k])
+                /* the timer must run from this input - observable only while a timeout is armed (active state) */
+                if (got != Q && a->last_ts != base + (uint64_t)el[k])
                     viol("C14:last-ts-not-updated", "state=%s input=%d: last_ts=%llu now=%llu", sn[s], in,
                          (unsigned long long)a->last_ts, (unsigned long long)(base + (uint64_t)el[k]));
             }
